@@ -2,6 +2,8 @@
 
 package ecs
 
+import "time"
+
 // ---- C15-H2: capacity arithmetic over all uint32.
 
 // capPow2 is the least power of two >= x for 1 <= x <= 2^31.
@@ -49,3 +51,59 @@ func VerifC15_ExtendBounds() {
 	vcheck("grown-holds", nc >= required && nc > cp)
 	vreach("grows")
 }
+
+// ---- time-bounded Shrink with an arbitrary (symbolic, non-decreasing) clock and an arbitrary
+// time limit: every intermediate world is valid and equal to the model (Shrink is invisible),
+// the return value says exactly whether work remains, repeated calls terminate, and the end
+// state is the one an unbounded Shrink reaches (nothing left to shrink).
+func vShrinkFootprint(w *World) (capSum int, active int) {
+	for i := range w.storage.tables {
+		t := &w.storage.tables[i]
+		capSum += int(t.cap)
+		if t.HasRelations() && !t.isFree {
+			active++
+		}
+	}
+	return
+}
+
+func vIncrementalShrink(kind int) {
+	vMode = 1
+	var W *vWorld
+	if kind == 0 {
+		W = vShapePlain(1, 60, 1)
+	} else {
+		v := vRelVariants[[]int{1, 2, 5}[vPick("variant", 3)]] // variants with an emptied relation table
+		W = vShapeRel(1, 60, v[0] == 1, v[1])
+	}
+	vTighten(W.w)
+	limit := vU64("limit")
+	vassume(limit < 1_000_000_000_000) // up to 1000 s; time.Duration is signed
+	const maxCalls = 14
+	more := true
+	calls := 0
+	for calls < maxCalls && more {
+		cap0, act0 := vShrinkFootprint(W.w)
+		vcheck("bounded/no-panic", !vpanics(func() { more = W.w.Shrink(time.Duration(limit)) }))
+		calls++
+		cap1, act1 := vShrinkFootprint(W.w)
+		W.checkAll("bounded")
+		vcheck("bounded/never-grows", cap1 <= cap0 && act1 <= act0)
+		if calls > 1 {
+			// the previous call announced remaining work: this call must have found some
+			vcheck("bounded/announced-work-exists", cap1 < cap0 || act1 < act0)
+		}
+	}
+	vcheck("bounded/terminates", !more)
+	capA, actA := vShrinkFootprint(W.w)
+	vclockbound(3599_000_000_000)
+	var again bool
+	vcheck("final/no-panic", !vpanics(func() { again = W.w.Shrink() }))
+	capB, actB := vShrinkFootprint(W.w)
+	vcheck("final/nothing-was-left", !again && capA == capB && actA == actB)
+	W.checkAll("final")
+	vreach("end")
+}
+
+func VerifC15_IncrementalShrinkPlain() { vIncrementalShrink(0) }
+func VerifC15_IncrementalShrinkRel()   { vIncrementalShrink(1) }
